@@ -69,6 +69,9 @@ class Trace:
         self.decisions: list[str] = []
         self.taint = {"p": True, "q": True, "s": True, "z": True}  # implicit flows: branches on non-equivariant values
         self.decided: dict = {}  # test key -> outcome: the same symbolic question gets the same answer along one path
+        self.iters: dict = {}  # one-shot iterator id -> position (int) | ("all" | "some", consumer, position)
+        self.iter_n = 0
+        self.call_serial = 0
 
 
 class Result:
@@ -87,6 +90,10 @@ class Result:
     def describe_path(self) -> str:
         return " ; ".join(self.trace.decisions) or "(straight-line)"
 
+
+ONE_SHOT = {"builtins.zip", "builtins.map", "builtins.filter", "builtins.enumerate", "builtins.reversed", "itertools.chain", "itertools.chain.from_iterable",
+            "itertools.starmap", "itertools.pairwise", "itertools.accumulate", "itertools.islice", "itertools.product", "itertools.combinations",
+            "itertools.zip_longest", "itertools.compress", "itertools.takewhile", "itertools.dropwhile"}
 
 NORMAL, RETURN, BREAK, CONTINUE, RAISE = "normal", "return", "break", "continue", "raise"
 
@@ -209,7 +216,7 @@ class Interp:
                     acc = v if acc is None else self.join_vals(acc, v, set())
             if acc is None:
                 raise AbsRaise("Exception", None, "all paths raise")
-            return acc
+            return self.ops.fresh_iter(acc)
         return self._function_result(outs)
 
     _GEN_CACHE: dict = {}
@@ -682,7 +689,61 @@ class Interp:
         return self.trace.decided.get(f"Gt:{ln.poly!r}") is False
 
     def s_While(self, st, env):
-        return self._abstract_loop(st, env, None, {"while": True})
+        """While the test has a definite answer on the current state the loop is unrolled (bounded); from the first
+        iteration whose test is open — rolled back — the abstract loop takes over."""
+        outs: dict = {}
+        cur = env
+        for _ in range(64):
+            saved_iters, nev, ndec = dict(self.trace.iters), len(self.trace.events), len(self.trace.decisions)
+            saved_vars = []
+            e_ = cur
+            while e_ is not None:
+                saved_vars.append((e_, dict(e_.vars)))
+                e_ = e_.parent
+            t = self.eval(st.test, cur)
+            dec = self.truth(t)
+            if dec is None:
+                if len(self.trace.decisions) == ndec:
+                    # nothing irrevocable happened while evaluating the open test: undo its effects (walrus targets, iterator positions)
+                    self.trace.iters = saved_iters
+                    del self.trace.events[nev:]
+                    for e2, vs in saved_vars:
+                        e2.vars.clear()
+                        e2.vars.update(vs)
+                break
+            if not dec:
+                if st.orelse:
+                    r = self.exec_block(st.orelse, cur)
+                    for kind, (e, val) in r.items():
+                        self._merge_out(outs, kind, e, val)
+                else:
+                    self._merge_out(outs, NORMAL, cur, None)
+                return self._finish_while(outs)
+            r = self.exec_block(st.body, cur)
+            nxt = None
+            for kind, (e, val) in r.items():
+                if kind in (NORMAL, CONTINUE):
+                    if nxt is None:
+                        nxt = e
+                    else:
+                        self.join_env_into(nxt, e)
+                elif kind == BREAK:
+                    self._merge_out(outs, "loopbreak", e, None)
+                else:
+                    self._merge_out(outs, kind, e, val)
+            if nxt is None:
+                return self._finish_while(outs)
+            cur = nxt
+        r = self._abstract_loop(st, cur, None, {"while": True})
+        for kind, (e, val) in r.items():
+            self._merge_out(outs, kind, e, val)
+        return self._finish_while(outs)
+
+    def _finish_while(self, outs):
+        if "loopbreak" in outs:
+            be, _ = outs.pop("loopbreak")
+            self._merge_out(outs, NORMAL, be, None)
+        return outs
 
     def _abstract_loop(self, st, env: Env, elem, info: dict, run_orelse: bool = True):
         self.loop_ids += 1
@@ -701,6 +762,7 @@ class Interp:
                     self.assign(st.target, ev, body_env, st)
                 else:
                     self.eval(st.test, body_env)
+                    self.ops.assume(st.test, True, body_env)
                 r = self.exec_block(st.body, body_env)
                 nxt = None
                 for kind, (e, val) in r.items():
@@ -968,8 +1030,17 @@ class Interp:
         if self.join_depth == 0:
             c = self.oracle.decide(f"{self.where(n)[0]}: ifexp {norm_text(n.test)}", 2)
             self.trace.decisions.append(f"{'T' if c == 0 else 'F'}[{norm_text(n.test)}]")
+            self.ops.assume(n.test, c == 0, env)
             return self.eval(n.body if c == 0 else n.orelse, env)
-        return join(self.eval(n.body, env), self.eval(n.orelse, env))
+        undo = self.ops.assume(n.test, True, env) or []
+        a = self.eval(n.body, env)
+        for d, k, v in undo:
+            d[k] = v
+        undo = self.ops.assume(n.test, False, env) or []
+        b = self.eval(n.orelse, env)
+        for d, k, v in undo:
+            d[k] = v
+        return join(a, b)
 
     def e_Lambda(self, n, env):
         return LambdaV(n, env, env.module)
@@ -987,7 +1058,7 @@ class Interp:
         return self._comp(n, env, "list")
 
     def e_GeneratorExp(self, n, env):
-        return self._comp(n, env, "list")
+        return self.ops.fresh_iter(self._comp(n, env, "list"))
 
     def e_SetComp(self, n, env):
         r = self._comp(n, env, "list")
@@ -1123,6 +1194,7 @@ class Interp:
             return SuperV(slf, cls)
         f = self.eval(n.func, env)
         args = []
+        self.trace.call_serial += 1
         for a in n.args:
             if isinstance(a, ast.Starred):
                 v = self.eval(a.value, env)
@@ -1195,7 +1267,10 @@ class Interp:
             return self.ops.call_object(f, args, kwargs, node, env)
         if isinstance(f, ExtV):
             self.calls_made.append((caller, f.name))
-            return self.ops.call_ext(f.name, args, kwargs, node, env)
+            r = self.ops.call_ext(f.name, args, kwargs, node, env)
+            if f.name in ONE_SHOT and isinstance(r, ListV):
+                r = self.ops.fresh_iter(r)  # these return iterators: what one consumer took is gone for the next
+            return r
         if isinstance(f, ExtMethodV):
             self.calls_made.append((caller, f"<{type(f.recv).__name__}>.{f.name}"))
             return self.ops.call_method(f.recv, f.name, args, kwargs, node, env)
